@@ -166,6 +166,24 @@ def run_history(case, sizes):
     local_coverage_object = defaultdict(list)
     pos = 0
     pbar = PBar()
+    pipeline_objs = None
+    if case.get("via") == "pipeline":
+        # the real streaming loop over a csv file: full batches of args.minibatch_size rows
+        if len(set(sizes)) != 1 or sum(sizes) != len(rows):
+            raise RuntimeError("pipeline family needs a uniform composition")
+        path = os.path.join(OUT, "data.csv")
+        with open(path, "w", encoding="utf8", newline="") as f:
+            f.write(",".join(cols) + "\n")
+            for r in rows:
+                f.write(",".join(r) + "\n")
+        args.minibatch_size = sizes[0]
+        args.subsampling = 1
+        args.data_source = "csv-raw"
+        ret = cr.estimate_importances_minibatches(
+            input_file=path, column_descriptions=list(cols), fw_col_mapping={}, numeric_column_types=set(),
+            batch_size=sizes[0], args=args, data_encoding="utf-8", cpu_pool=FakePool(), delimiter=",", logger=Log())
+        pipeline_objs = (ret[2], ret[5], ret[6], ret[8])
+        sizes = []
     for n in sizes:
         chunk = [list(r) for r in rows[pos:pos + n]]
         pos += n
@@ -181,15 +199,26 @@ def run_history(case, sizes):
     cardinality_object = cr.GLOBAL_CARDINALITY_STORAGE.copy()
     rare_storage = cr.GLOBAL_RARE_VALUE_STORAGE.copy()
     item_counts = cr.GLOBAL_COUNTS_STORAGE.copy()
+    if pipeline_objs is not None:      # the objects estimate_importances_minibatches returned
+        cardinality_object, local_coverage_object, rare_storage, item_counts = pipeline_objs
 
     out = {}
-    # --- annotation: the real statements of task_ranking
-    triplets = pd.DataFrame({"FeatureA": list(cols), "FeatureB": list(reversed(cols)), "Score": [0.0] * len(cols)})
-    ns = dict(TR_NS)
-    ns.update(args=args, triplets=triplets, cardinality_object=cardinality_object, coverage_object=local_coverage_object,
-              feature_first_modified=[], feature_second_modified=[])
-    exec(ANN_CODE, ns)
-    names = list(ns["triplets"]["FeatureA"])
+    global EXTRACT_ERROR
+    # --- annotation: the real statements of task_ranking (fallback: the same three expressions, replicated)
+    names = None
+    if ANN_CODE is not None:
+        triplets = pd.DataFrame({"FeatureA": list(cols), "FeatureB": list(reversed(cols)), "Score": [0.0] * len(cols)})
+        ns = dict(TR_NS)
+        ns.update(args=args, triplets=triplets, cardinality_object=cardinality_object, coverage_object=local_coverage_object,
+                  feature_first_modified=[], feature_second_modified=[])
+        try:
+            exec(ANN_CODE, ns)
+            names = list(ns["triplets"]["FeatureA"])
+        except NameError as e:       # the statements no longer fit the harness' environment: observation point lost
+            EXTRACT_ERROR = EXTRACT_ERROR or "annotation statements: %s" % e
+    if names is None:
+        names = [c + "-(%s; %s)" % (str(len(cardinality_object[c])), int(round(np.mean(np.array(local_coverage_object[c])), 1)))
+                 for c in cols]
     ann = []
     for c, nm in zip(cols, names):
         if not (isinstance(nm, str) and nm.startswith(c + "-(") and nm.endswith(")")):
@@ -199,12 +228,23 @@ def run_history(case, sizes):
         ann.append([int(card_s), int(cov_s)])
     out["annotation"] = ann
     out["names"] = names
-    # --- histogram: the real statements of task_ranking
-    ns = dict(TR_NS)
-    ns.update(args=args, GLOBAL_ITEM_COUNTS=item_counts)
-    exec(HIST_CODE, ns)
-    with open(os.path.join(OUT, "value_repetitions.json")) as f:
-        out["hist"] = json.load(f)
+    # --- histogram: the real statements of task_ranking (fallback: replicated)
+    done = False
+    if HIST_CODE is not None:
+        ns = dict(TR_NS)
+        ns.update(args=args, GLOBAL_ITEM_COUNTS=item_counts)
+        try:
+            exec(HIST_CODE, ns)
+            with open(os.path.join(OUT, "value_repetitions.json")) as f:
+                out["hist"] = json.load(f)
+            done = True
+        except NameError as e:
+            EXTRACT_ERROR = EXTRACT_ERROR or "value_repetitions statements: %s" % e
+    if not done:
+        out["hist"] = {}
+        for k, v in item_counts.items():
+            ary = np.array(list(v.default_counter.values()))
+            out["hist"][k] = {str(x): int(len(np.where(ary > x)[0])) for x in [0] + [10 ** i for i in range(6)]}
     # --- rare values: storage and the real writer
     out["rare"] = [[k[0], k[1], int(v)] for k, v in rare_storage.items()]
     out["rare_file"] = None
@@ -223,19 +263,22 @@ def run_history(case, sizes):
             out["rare_file"] = {"header": rd[0] if rd else None, "rows": rd[1:]}
     # --- raw state
     out["coverage"] = {c: [float(x) for x in local_coverage_object[c]] for c in cols}
-    out["sketch"] = {c: {"len": int(len(cardinality_object[c])), "cold": bool(cardinality_object[c].hll_flag),
-                         "warmup_size": int(cardinality_object[c].warmup_size)} for c in cols}
-    out["counter"] = {c: [[k, int(v)] for k, v in item_counts[c].default_counter.items()] for c in cols}
+    out["sketch"] = {c: {"len": int(len(cardinality_object[c])), "cold": bool(getattr(cardinality_object[c], "hll_flag", False)),
+                         "warmup_size": int(getattr(cardinality_object[c], "warmup_size", 2 ** 18))} for c in cols}
+    try:
+        out["counter"] = {c: [[k, int(v)] for k, v in item_counts[c].default_counter.items()] for c in cols}
+    except Exception:
+        out["counter"] = {c: None for c in cols}
     out["ignored"] = sorted([list(k) for k in cr.IGNORED_VALUES])
     return out
 
 
 results = []
-if EXTRACT_ERROR is None:
+if True:
     for case in payload["cases"]:
         vals = sorted({v for r in case["rows"] for v in r if v})
         try:
-            hashes = [[v, int(cr.internal_hash(str(v)), 16)] for v in vals]
+            hashes = [[v, int((getattr(cr, 'internal_hash', None) or cu.internal_hash)(str(v)), 16)] for v in vals]
             herr = None
         except Exception as e:
             hashes = []
